@@ -51,7 +51,7 @@ def _work(args):
         I = None
         used_depth = depth
         for d_try in range(depth, -1, -1):
-            I = Interp(F, M, inv, max_depth=d_try, budget=budget)
+            I = Interp(F, M, inv, max_depth=d_try, budget=budget if d_try > 0 else budget * 8)
             I.inv_targets = targets
             I.trusted_ctx = _TRUSTED
             I.rootset = _ROOTSET
